@@ -434,6 +434,123 @@ Proof.
 Qed.
 
 (* ------------------------------------------------------------------------------------------ *)
+(* Which line a byte is on *)
+
+Lemma count_lf_app : forall a b, count_lf (a ++ b) = count_lf a + count_lf b.
+Proof. intros a b. unfold count_lf. rewrite filter_app, len_app. reflexivity. Qed.
+
+Lemma count_lf_none : forall l, ~ In LF l -> count_lf l = 0.
+Proof.
+  intros l H. unfold count_lf. induction l as [|x l IH]; [reflexivity|].
+  cbn [filter]. destruct (x =? LF) eqn:E.
+  - apply N.eqb_eq in E. exfalso. apply H. left. exact E.
+  - apply IH. intros Hin. apply H. right. exact Hin.
+Qed.
+
+Lemma firstn_no_lf : forall n (l : list N), ~ In LF l -> ~ In LF (firstn n l).
+Proof.
+  intros n l H Hin. apply H. rewrite <- (firstn_skipn n l). apply in_or_app. left. exact Hin.
+Qed.
+
+Lemma count_lf_terminator : forall c t, ~ In LF c -> is_lf_terminator t -> count_lf (c ++ t) = 1.
+Proof.
+  intros c t Hc Ht. rewrite count_lf_app, (count_lf_none _ Hc).
+  destruct Ht as [Ht|Ht]; subst t; reflexivity.
+Qed.
+
+Lemma count_lf_terminator_prefix : forall t k,
+  is_terminator t -> (k < length t)%nat -> count_lf (firstn k t) = 0.
+Proof.
+  intros t k Ht Hk. destruct Ht as [Ht|[Ht|[Ht|Ht]]]; subst t; cbn [length] in Hk.
+  - lia.
+  - destruct k; [reflexivity|lia].
+  - destruct k; [reflexivity|lia].
+  - destruct k as [|[|k]]; [reflexivity|reflexivity|lia].
+Qed.
+
+(* Every byte is either inside the content of a line, or it belongs to the terminator of a line (then
+   every later line begins behind it).  Either way the number of LFs before it is the line index. *)
+Lemma locs_of_offset : forall ps pos o c,
+  pieces_ok ps ->
+  nth_error (concat (map piece_bytes ps)) o = Some c ->
+  exists i l,
+    nth_error (locs_of pos ps) i = Some l /\
+    fst l <= pos + N.of_nat o /\
+    count_lf (firstn o (concat (map piece_bytes ps))) = N.of_nat i /\
+    (pos + N.of_nat o < snd l \/
+     (snd l <= pos + N.of_nat o /\
+      forall j lj, (i < j)%nat -> nth_error (locs_of pos ps) j = Some lj ->
+                   pos + N.of_nat o + 1 <= fst lj)).
+Proof.
+  induction ps as [|p r IH]; intros pos o c Hok Hn.
+  - destruct o; discriminate Hn.
+  - cbn [pieces_ok] in Hok. destruct Hok as [Hp [Hterm Hr]].
+    destruct Hp as [Hp1 [Hp2 [Hp3 Hp4]]].
+    cbn [map concat] in *. unfold piece_bytes at 1 in Hn. unfold piece_bytes at 1.
+    destruct (Nat.lt_ge_cases o (length (fst p))) as [Hlt|Hge].
+    + (* inside the content *)
+      exists O, (pos, pos + len (fst p)). cbn [locs_of nth_error fst snd].
+      split; [reflexivity|]. split; [lia|]. split.
+      * rewrite <- app_assoc. rewrite firstn_app.
+        replace (o - length (fst p))%nat with O by lia. rewrite firstn_O, app_nil_r.
+        apply count_lf_none. apply firstn_no_lf. exact Hp1.
+      * left. unfold len. lia.
+    + destruct (Nat.lt_ge_cases o (length (fst p ++ snd p))) as [Hlt2|Hge2].
+      * (* inside the terminator *)
+        rewrite app_length in Hlt2.
+        exists O, (pos, pos + len (fst p)). cbn [locs_of nth_error fst snd].
+        split; [reflexivity|]. split; [lia|]. split.
+        -- rewrite <- app_assoc. rewrite firstn_app. rewrite firstn_all2 by lia.
+           rewrite firstn_app.
+           replace (o - length (fst p) - length (snd p))%nat with O by lia.
+           rewrite firstn_O, app_nil_r.
+           rewrite count_lf_app, (count_lf_none _ Hp1).
+           rewrite (count_lf_terminator_prefix _ _ Hp2) by lia. reflexivity.
+        -- right. split; [unfold len; lia|].
+           intros j lj Hj Hlj. destruct j as [|j']; [lia|]. cbn [nth_error] in Hlj.
+           apply nth_error_In in Hlj. apply locs_of_lower in Hlj.
+           unfold piece_bytes, len in Hlj. rewrite app_length in Hlj. lia.
+      * (* a later piece *)
+        rewrite nth_error_app2 in Hn by exact Hge2.
+        assert (Hne : r <> []).
+        { intros E. subst r. cbn [map concat] in Hn. destruct (o - length (fst p ++ snd p))%nat; discriminate Hn. }
+        destruct (IH (pos + len (piece_bytes p)) _ c Hr Hn) as [i [l [Hi [H1 [H3 H2]]]]].
+        exists (S i), l. cbn [locs_of nth_error].
+        split; [exact Hi|].
+        unfold piece_bytes, len in *.
+        split; [lia|]. split.
+        -- rewrite firstn_app. rewrite firstn_all2 by lia.
+           rewrite count_lf_app, H3. rewrite (count_lf_terminator _ _ Hp1 (Hterm Hne)). lia.
+        -- destruct H2 as [H2|[H2 Hlater]]; [left; lia|].
+           right. split; [lia|].
+           intros j lj Hj Hlj. destruct j as [|j']; [lia|]. cbn [nth_error] in Hlj.
+           assert (Hj' : (i < j')%nat) by lia.
+           specialize (Hlater _ _ Hj' Hlj). lia.
+Qed.
+
+Lemma offset_line : forall src o c,
+  nth_error src o = Some c ->
+  exists i l,
+    nth_error (line_locations src) i = Some l /\
+    fst l <= N.of_nat o /\
+    count_lf (firstn o src) = N.of_nat i /\
+    (N.of_nat o < snd l \/
+     (snd l <= N.of_nat o /\
+      forall j lj, (i < j)%nat -> nth_error (line_locations src) j = Some lj ->
+                   N.of_nat o + 1 <= fst lj)).
+Proof.
+  intros src o c Hn.
+  destruct (line_locations_pieces src) as [Hc [Hl Hok]].
+  rewrite <- Hc in Hn.
+  destruct (locs_of_offset _ 0 _ _ Hok Hn) as [i [l [Hi [H1 [H3 H2]]]]].
+  exists i, l. rewrite Hl. rewrite Hc in H3.
+  split; [exact Hi|]. split; [lia|]. split; [exact H3|].
+  destruct H2 as [H2|[H2 Hlater]]; [left; lia|].
+  right. split; [lia|].
+  intros j lj Hj Hlj. specialize (Hlater _ _ Hj Hlj). lia.
+Qed.
+
+(* ------------------------------------------------------------------------------------------ *)
 (* Summary *)
 
 Definition ascending (L : list (N * N)) : Prop :=
